@@ -1,10 +1,9 @@
 //! C12 — editor buffers are the source of truth for open documents.
 use std::collections::BTreeMap;
-use std::time::Duration;
 
 use serde_json::json;
 
-use super::session::{expected_diagnostics, expected_outline, outline_names, LspSession};
+use super::session::{compare_with_fresh, LspSession};
 use crate::fw::*;
 
 pub struct C12;
@@ -148,53 +147,20 @@ impl Property for C12 {
                 break;
             }
             let root = name(doc);
-            let expected = expected_diagnostics(&s.tw, &model, root);
-            let published = s.c.last_diagnostics();
-            for (uri, want) in &expected {
-                let got = published.get(uri).map(|x| x.1.clone());
-                if got.as_ref() != Some(want) {
-                    let which = if uri.ends_with("i.td") { "included" } else { "root" };
-                    verdict = Some(Verdict::Fail(Failure::new(
-                        "C12.diagnostics-not-from-buffers",
-                        format!("C12.diagnostics-not-from-buffers:{which}"),
-                        format!(
-                            "events {} step {step}: diagnostics of {uri}: {got:?}; with texts = disk overlaid by open buffers (root {root}) they are {want:?}\nreceived: {:?}\nserver points: {:?}",
-                            case["events"],
-                            s.c.notifications.iter().map(|n| format!("{} {} v{}", n["method"].as_str().unwrap_or(""), n["params"]["uri"].as_str().unwrap_or("").rsplit('/').next().unwrap_or(""), n["params"]["version"])).collect::<Vec<_>>(),
-                            s.sched.log()
-                        ),
-                    )));
-                    break;
-                }
-            }
-            if verdict.is_some() {
-                break;
-            }
-            for open in s.opened.clone() {
-                let uri = s.tw.uri(&open);
-                if !expected.contains_key(&uri) {
-                    continue;
-                }
-                let want = expected_outline(&s.tw, &model, root, &open);
-                let r = s.c.request("textDocument/documentSymbol", json!({"textDocument": {"uri": uri}}), Duration::from_secs(30));
-                let Ok(r) = r else {
+            match compare_with_fresh(&mut s, &model, root) {
+                Ok(()) => {}
+                Err((what, _)) if what.is_empty() => {
                     verdict = Some(Verdict::Skip("no-response"));
                     break;
-                };
-                let got = r["result"].as_array().map(|v| v.iter().map(outline_names).collect::<Vec<_>>());
-                // an empty outline may be reported as null
-                let norm = |o: Option<Vec<serde_json::Value>>| o.filter(|v| !v.is_empty());
-                if norm(got.clone()) != norm(want.clone()) {
-                    verdict = Some(Verdict::Fail(Failure::new(
-                        "C12.outline-not-from-buffers",
-                        "C12.outline-not-from-buffers",
-                        format!("events {} step {step}: outline of open document {open}: {got:?}; from the buffers it is {want:?}", case["events"]),
-                    )));
+                }
+                Err((what, detail)) => {
+                    let (oracle, sig) = match what.strip_prefix("diagnostics:") {
+                        Some(which) => ("C12.diagnostics-not-from-buffers", format!("C12.diagnostics-not-from-buffers:{which}")),
+                        None => ("C12.outline-not-from-buffers", "C12.outline-not-from-buffers".to_string()),
+                    };
+                    verdict = Some(Verdict::Fail(Failure::new(oracle, sig, format!("events {} step {step}: {detail} (texts = disk overlaid by open buffers)", case["events"]))));
                     break;
                 }
-            }
-            if verdict.is_some() {
-                break;
             }
         }
         s.finish();
